@@ -220,6 +220,43 @@ def spec_xmldoc_vs_expat(cx, docs, component):
             cx.disagree(component + "-xmldoc-spec", reqs[i][:6000], ["expat", str(theirs)[:300]], [r[0], str(mine)[:300]])
 
 
+def model_json_print(cx, docs, ctxlines, component):
+    """(K) tree level: the Lean model of the JSON tree printer (LyModel/JsonTree/Model.lean: comma bookkeeping with level /
+    level_printed, open arrays, skipped nodes, metadata objects and leaf-list metadata arrays, value typing from the generated
+    table) applied to the printer's view libyang reports must produce libyang's JSON output byte for byte, under with-defaults
+    explicit, trim and report-all.  docs: [(ctx_index, fmt, doc)]"""
+    lines, meta = [], {}
+    last = None
+    for ci, fmt, doc in docs:
+        if ci != last:
+            lines.append("x%d rt ctx %s" % (len(lines), ctxlines[ci]))
+            last = ci
+        for wd in (0, 1, 2):
+            lines.append("%d rt jview %s %s %d" % (len(lines), fmt, hexs(doc), wd))
+            meta[len(lines) - 1] = (doc, wd)
+    if not lines:
+        return
+    ri = run_batched(cx, lines, component)
+    reqs, back = [], []
+    for i, (doc, wd) in meta.items():
+        r = ri.get(str(i), ["err", "NoReply"])
+        if r[0] != "ok":
+            cx.count(None, False, component + ":jsontree-model:" + " ".join(r[:2]))
+            continue
+        reqs.append("%d jsontree print %s" % (len(reqs), r[2]))
+        back.append((doc, wd, unhex(r[1]), r[2]))
+    rm = cx.run_model(reqs) if reqs else {}
+    for i, (doc, wd, pj, view) in enumerate(back):
+        r = rm.get(str(i), ["err", "NoReply"])
+        if r[:2] == ["err", "Unsupported"]:
+            cx.count(None, False, component + ":jsontree-model:out-of-fragment")
+            continue
+        cx.count(("jsontree", view, wd), True, component + ":jsontree-model:%s:%s" % (WDN[wd], r[0]))
+        if r[0] != "ok" or unhex(r[1]) != pj:
+            cx.disagree(component + "-jsontree", ("jsontree print wd=%s " % WDN[wd]) + view[:3000], ["ok", pj.decode("utf-8", "replace")[:1500]],
+                        [r[0], (unhex(r[1]).decode("utf-8", "replace") if r[0] == "ok" else "")[:1500]])
+
+
 def classify(component, what, case):
     """recognise the specific known defects / documented limits of the pinned tree (DESIGN.md §6); the decision was
     taken in `triage_cell` from the actual difference between the original and the re-parsed tree"""
@@ -356,14 +393,17 @@ def run_rt(cx, laws=("roundtrip", "independent")):
     cx.rule("rt: %d random S1 schemas x %d valid trees each (vlib.treegen), rendered independently to XML and RFC 7951 JSON; "
             "matrix = 3 formats x 5 with-defaults modes x shrink; non-trivial = distinct (schema, tree) with at least one data node" % (nschema, ntree))
     lines, meta = [], {}
+    jdocs, jctx = [], []
     for si in range(nschema):
         s = treegen.gen_schema(rng, si)
+        jctx.append("%s %s" % (hexs(searchdir), hexs(s.yang())))
         lines.append("%d rt ctx %s %s" % (len(lines), hexs(searchdir), hexs(s.yang())))
         meta[len(lines) - 1] = ("ctx", s, None)
         tg = treegen.TreeGen(rng, s)
         for ti in range(ntree):
             f = tg.tree()
             x, j = render_xml(s, f), render_json(s, f)
+            jdocs.append((si, "xml", x))
             for fmt, doc in (("xml", x), ("json", j)):
                 lines.append("%d rt rt %s %s" % (len(lines), fmt, hexs(doc)))
                 meta[len(lines) - 1] = ("rt", s, (fmt, doc, f))
@@ -440,6 +480,7 @@ def run_rt(cx, laws=("roundtrip", "independent")):
                     cx.fail("rt", "XML output read by an independent parser differs from the tree (elements, namespaces or character data)",
                             {"yang": s.yang(), "xml_out": px.decode("utf-8", "replace"), "first_diff": first_diff(a2, b)})
     model_xml_print(cx, xmlitems, "rt")
+    model_json_print(cx, jdocs, jctx, "rt")
     spec_xmldoc_vs_expat(cx, [px for _, px in xmlitems], "rt")
     # failing cells: look at the actual difference (original vs re-parsed, both printed implicit-tagged) before deciding
     FI = {"xml": 0, "json": 1, "lyb": 2}
